@@ -56,6 +56,9 @@ class MTable:
     filtered: bool = False
     verbs: tuple = ()  # verb kinds applied since the source(s)
     same_as: str | None = None  # id of the table whose visible data this one reproduces (re-rooting only)
+    # columns that depend on an aggregate of a `summarize` without grouping in the current SELECT
+    # (None: there is no such summarize); used to classify C08 findings, not to judge
+    ung: frozenset | None = None
 
     def names(self):
         return [n for n, _ in self.visible]
@@ -237,6 +240,7 @@ class Model:
             rowid=rowid,
             order_fixed=False,
             n_summarize=m.n_summarize + 1,
+            ung=frozenset(tok.id for _, tok in items) if not m.grouping else None,
         )
 
     # ---- two-table verbs -------------------------------------------------------------
@@ -261,6 +265,7 @@ class Model:
             n_join=l.n_join + r.n_join + 1,
             n_limit=0,
             n_summarize=0,
+            ung=None,
         )
         m.origins = l.origins | r.origins | {new_id}
         m.verbs = l.verbs + ("join",)
@@ -279,6 +284,7 @@ class Model:
             n_union=l.n_union + r.n_union + 1,
             n_limit=0,
             n_summarize=0,
+            ung=None,
         )
         m.origins = l.origins | r.origins | {new_id}
         return m
@@ -301,7 +307,7 @@ class Model:
     def alias(self, m: MTable, new_id: str, name: str | None, keep: bool) -> MTable:
         nm = name if name is not None else m.name
         if keep:
-            return m.child(new_id, "alias_keep", name=nm, n_alias=m.n_alias + 1, same_as=m.id if not m.hidden() else None)
+            return m.child(new_id, "alias_keep", name=nm, n_alias=m.n_alias + 1, same_as=m.id if not m.hidden() else None, ung=None)
         mp, lin_map = self._fresh(m, new_id, m.scope)
         res = m.child(
             new_id,
@@ -316,6 +322,7 @@ class Model:
             n_alias=m.n_alias + 1,
             order_fixed=False,
             same_as=m.id,
+            ung=None,
         )
         res.origins = frozenset({new_id})
         return res
